@@ -120,6 +120,8 @@ pub struct NodeRun {
     /// unguarded reads answered from a cache although the columns say "absent" (after the last step)
     pub ghost_headers: Vec<u64>,
     pub ghost_blocks_without_body: Vec<u64>,
+    /// get_block panicked ("block uncles must be stored"): header still cached, uncle entry evicted
+    pub ghost_get_block_panics: Vec<u64>,
     pub ghost_cell_data: usize,
     pub guarded_reads: u64,
 }
@@ -237,7 +239,7 @@ pub fn replay(g: &Gen, c: &Config, dir: &Path, content: &HashMap<Byte32, Complet
     let init = initial_entries(c, g, content);
     let mut node = Node::on_disk(&g.consensus, dir, store_config(c));
     apply_policy(&node, c, &init);
-    let mut run = NodeRun { obs: vec![], direct: vec![], ghost_headers: vec![], ghost_blocks_without_body: vec![], ghost_cell_data: 0, guarded_reads: 0 };
+    let mut run = NodeRun { obs: vec![], direct: vec![], ghost_headers: vec![], ghost_blocks_without_body: vec![], ghost_get_block_panics: vec![], ghost_cell_data: 0, guarded_reads: 0 };
     let mut known: HashMap<u64, Option<bool>> = HashMap::new();
     let mut last_main: Vec<Byte32> = vec![];
     let nsteps = g.steps.len();
@@ -301,10 +303,15 @@ pub fn replay(g: &Gen, c: &Config, dir: &Path, content: &HashMap<Byte32, Complet
                 if store.get_block_header(&h).is_some() || store.block_exists(&h) {
                     run.ghost_headers.push(id);
                 }
-                if let Some(x) = store.get_block(&h) {
-                    if x.transactions().is_empty() {
-                        run.ghost_blocks_without_body.push(id);
+                // get_block of a deleted block: guarded by the cached header only
+                match std::panic::catch_unwind(std::panic::AssertUnwindSafe(|| store.get_block(&h))) {
+                    Ok(Some(x)) => {
+                        if x.transactions().is_empty() {
+                            run.ghost_blocks_without_body.push(id);
+                        }
                     }
+                    Ok(None) => {}
+                    Err(_) => run.ghost_get_block_panics.push(id),
                 }
             }
         }
